@@ -32,6 +32,7 @@ CLASS_OF_KIND = {
     'parse_exception': 'SYNTAX_ERROR',
     'exit_nonzero': None,  # depends on the phase: FAIL in assert, HARD_ERROR elsewhere
     'spawn_error': 'HARD_ERROR',
+    'timeout_kill': 'HARD_ERROR',  # a timeout is an error, never a FAIL
 }
 
 PREV_OF_RANK = {4: 'SETUP', 5: 'SETUP', 6: 'SETUP', 7: 'ACT', 8: 'BEFORE_ASSERT', 9: 'ASSERT'}
